@@ -131,3 +131,34 @@ impl rand_core::RngCore for SliceRng {
     fn fill_bytes(&mut self, _dest: &mut [u8]) { unimplemented!() }
     fn try_fill_bytes(&mut self, _dest: &mut [u8]) -> core::result::Result<(), rand_core::Error> { unimplemented!() }
 }
+
+// ---- independent evaluation of tagged assertions ------------------------------------------------
+// Kani (like Rust) treats a failed assertion as the end of the path, so in a harness that states
+// facts of several properties the first failing assertion would mask all later ones -- and the
+// per-property filter of check.py would then miss a violation whose assertion comes later.
+// vcheck! evaluates each assertion only on the paths where a nondeterministic selector equals
+// the assertion's source position: every assertion is decided independently of the others.
+pub(crate) static mut VSEL: u32 = 0;
+pub(crate) static mut VSET: bool = false;
+/// must be called once at the start of every harness that uses vcheck! (statics persist between
+/// the tests of one native playback process, so lazy initialisation would desynchronise replays)
+pub(crate) fn vinit() {
+    unsafe {
+        VSEL = kani::any();
+        VSET = true;
+    }
+}
+pub(crate) fn vsel() -> u32 {
+    unsafe {
+        assert!(VSET, "harness bug: vinit() not called before vcheck!");
+        VSEL
+    }
+}
+#[macro_export]
+macro_rules! vcheck {
+    ($c:expr, $m:literal) => {
+        if $crate::mac::verif_kani_lorawan_device_mac_common::vsel() == ((line!() << 8) | column!()) {
+            assert!($c, $m);
+        }
+    };
+}
